@@ -81,6 +81,25 @@ func checkC18(c *Check) {
 				if cal := x.Common().StaticCallee(); cal != nil && p.inModule(cal) {
 					return
 				}
+				// sync/atomic on the address of a package variable or of a field (never nil): total
+				if (strings.HasPrefix(n, "sync/atomic.") || strings.HasPrefix(n, "(*sync/atomic.")) && len(x.Common().Args) > 0 {
+					switch a := x.Common().Args[0].(type) {
+					case *ssa.Global:
+						return
+					case *ssa.FieldAddr:
+						if _, isG := a.X.(*ssa.Global); isG {
+							return
+						}
+						if r, _ := addrRoot(a); r != nil {
+							if _, isP := r.(*ssa.Parameter); isP {
+								return
+							}
+							if _, isG := r.(*ssa.Global); isG {
+								return
+							}
+						}
+					}
+				}
 				if x.Common().IsInvoke() && strings.Contains(n, "flamego.") {
 					return
 				}
@@ -113,6 +132,10 @@ func checkC18(c *Check) {
 			}
 		}
 		empty := edgesWhere(fn, cEmptyStr(v), true)
+		if n == "Query" {
+			// an empty raw query string has no values at all: the same region, decided earlier
+			empty = union(empty, edgesWhere(fn, cEmptyStr(vFieldNamed("RawQuery")), true))
+		}
 		has := edgesWhere(fn, cCmp(token.GTR, vLen(defP), vConstInt(0)), true)
 		isDef := vElem(defP, vConstInt(0))
 		var defRets, otherRets []ssa.Instruction
@@ -137,6 +160,44 @@ func checkC18(c *Check) {
 			if in, _ := (Query{Fn: fn}).Reach(e.B.Succs[e.S], 0, inSet(otherRets)); in != nil {
 				conv = false
 			}
+		}
+		// … and no other return inside the empty region unless the default is known to be absent
+		hasNot := edgesWhere(fn, cCmp(token.GTR, vLen(defP), vConstInt(0)), false)
+		hasC := cCmp(token.GTR, vLen(defP), vConstInt(0))
+		emptyC := cEmptyStr(v)
+		var rawC CondM
+		if n == "Query" {
+			rawC = cEmptyStr(vFieldNamed("RawQuery"))
+		}
+		isOther := inSet(otherRets)
+		needPaths := false
+		for e := range empty {
+			if e.S < len(e.B.Succs) {
+				if in, _ := (Query{Fn: fn, Cut: hasNot}).Reach(e.B.Succs[e.S], 0, isOther); in != nil {
+					needPaths = true
+				}
+			}
+		}
+		if needPaths {
+			// path by path from the entry, flags resolved along the path (useDefault := v == "" && hasDefault): a
+			// path on which the value is known empty and never known non-empty, and the default never known
+			// absent, must not end in another return
+			eachEntryPathToReturn(fn, func(path []*ssa.BasicBlock, r *ssa.Return) bool {
+				if !isOther(r) {
+					return true
+				}
+				et, ef := condOnPath(path, emptyC)
+				if rawC != nil {
+					rt, _ := condOnPath(path, rawC)
+					et = et || rt
+				}
+				_, hf := condOnPath(path, hasC)
+				if et && !ef && !hf {
+					conv = false
+					return false
+				}
+				return true
+			})
 		}
 		if len(defRets) > 0 && g1 && g2 && conv {
 			c.OK(key, p.FuncPos(fn), "return defaultVal[0] ⇔ value == \"\" ∧ len(defaultVal) > 0", numInstrs(fn))
